@@ -1434,12 +1434,13 @@ func (client *client) pollInflights() (cont bool, err error) {
 }
 
 func (client *client) pollNewMessages(ids []packets.PacketID) (unused []packets.PacketID, err error) {
-	now := time.Now()
 	var elems []*queue.Elem
 	elems, err = client.queueStore.Read(ids)
 	if err != nil {
 		return nil, err
 	}
+	// Read blocks until a message is available, the waiting time is measured once it returns
+	now := time.Now()
 	for _, v := range elems {
 		switch m := v.MessageWithID.(type) {
 		case *queue.Publish:
@@ -1448,7 +1449,10 @@ func (client *client) pollNewMessages(ids []packets.PacketID) (unused []packets.
 			}
 			if client.version == packets.Version5 && m.Message.MessageExpiry != 0 {
 				// forward the remaining lifetime: the received value minus the time the message has been waiting
-				d := uint32(now.Sub(v.At).Seconds())
+				var d uint32
+				if w := now.Sub(v.At); w > 0 {
+					d = uint32(w.Seconds())
+				}
 				if d < m.Message.MessageExpiry {
 					m.Message.MessageExpiry -= d
 				} else {
